@@ -212,7 +212,7 @@ func (c *Client) handlePacket(pktx pkts.Packet) error {
 			}
 		case 2:
 			var transaction *brokerPublishQOS2Transaction
-			transactionx, hasTransaction := c.transactions.Get(pkt.MessageID())
+			transactionx, hasTransaction := c.gatewayTransactions.Get(pkt.MessageID())
 			if hasTransaction {
 				// We already have such transaction -> resent PUBLISH.
 				var ok bool
@@ -223,7 +223,7 @@ func (c *Client) handlePacket(pktx pkts.Packet) error {
 				}
 			} else {
 				transaction = newBrokerPublishQOS2Transaction(c, pkt.MessageID())
-				c.transactions.Store(pkt.MessageID(), transaction)
+				c.gatewayTransactions.Store(pkt.MessageID(), transaction)
 			}
 			return transaction.Publish(pkt)
 		default:
@@ -238,7 +238,7 @@ func (c *Client) handlePacket(pktx pkts.Packet) error {
 
 	// Broker PUBLISH QoS 2 transaction.
 	case *pkts1.Pubrel:
-		transactionx, hasTransaction := c.transactions.Get(pkt.MessageID())
+		transactionx, hasTransaction := c.gatewayTransactions.Get(pkt.MessageID())
 		if !hasTransaction {
 			// PUBREL for a transaction which is already complete: the
 			// gateway has not received our PUBCOMP and resends PUBREL.
